@@ -20,6 +20,12 @@ CHECKS = {
  'C05': dict(cat='exploration', technique='runtime monitoring: differential stream monitor (encrypted vs unencrypted rendering, peer decrypter vs plain reader) over random keys and histories',
              text='Random 40-byte session keys x random message histories (tiny, compressed, boundary-size and Wrath large-header frames) are written through one stateful encrypter; the checker aligns the ciphertext with the library\'s own unencrypted rendering frame by frame (bodies identical, header lengths equal), then the peer decrypter reads the ciphertext through read_encrypted and expect_*_message_encryption and must return the reference sequence and stop exactly at EOF.',
              note='Trusted: wow_srp (crypto halves built through its public ProofSeed constructors); reference frames from ref/.', ref='3.C05'),
+ 'C15': dict(cat='exploration', technique='runtime monitoring: exhaustive sweep of all 2^32 inputs through the real conversion, summarised per (year, month, day, weekday) group and judged by an independent calendar oracle',
+             text='All 2^32 values are pushed through DateTime::try_from by a 16-thread driver that knows nothing about calendars; it reports, for each of the 2^21 groups of the upper bits, the count/XOR/sum of accepted low patterns, panics, and checksums over as_int and every accessor. Python computes the expected summaries with two independent calendar implementations (datetime, days-from-civil) and compares whole arrays; differing and sampled groups are fetched as bitmaps and judged value by value, plus single-value accessor checks. Exhaustive over the input space.',
+             note='Trusted: Python datetime / days-from-civil (cross-checked against each other on every run), the group summaries (count, xor, sum) as a faithful fingerprint of the accepted set.', ref='3.C15'),
+ 'C20': dict(cat='exploration', technique='runtime monitoring: probe-point monitor with an f64 geometric oracle and a rounding margin',
+             text='Every trigger of the three expansion tables (discovered through the public verify_trigger) plus seeded random and enumerated boxes/circles are probed with points generated in the box frame and rotated out (just inside/outside each face, corners, own axes, bounding-box gaps, wrong map, random); contains / verify_trigger / distance helpers are compared with the geometric definition evaluated in f64; probes closer to a face than the f32 rounding margin are discarded and counted.',
+             note='Trusted: the f64 oracle and its rounding margin (DESIGN.md 3.C20); trigger tables are cross-checked as text against the repository tables.', ref='3.C20'),
 }
 PENDING = 'check not built yet (work in progress; DESIGN.md section 8 gives the build order)'
 
